@@ -4,6 +4,7 @@
    this is faithfulness (sampled probability = reported density), normalisation (take f = 1) and support in one
    statement, for every number of top-level clones R and every test function f. *)
 From PV Require Import Model.Proposals Proofs.GibbsProofs Proofs.ProposalsProofs Proofs.ProposalsPoint.
+From PV Require Import Model.Grammar Model.GrammarCases Proofs.GrammarSound Proofs.GrammarComplete Proofs.GrammarUnique.
 
 Theorem C08_bootstrap_is_density : forall (op : Qc) (first : bool) (R : nat) (f : place -> Qc),
   (first = true -> R = 0%nat) ->
@@ -75,6 +76,53 @@ Theorem C08_weights_telescope : forall gs qs g0,
   prodq (path_weights g0 gs qs) * prodq qs = lastq g0 gs / g0.
 Proof. exact weights_telescope. Qed.
 Print Assumptions C08_weights_telescope.
+
+(* ---- "so every tree compatible with the data order is reachable": the grammar of Model/Grammar.v -------------------
+   A forest over data points is the relation le x y = "clone(x) is an ancestor of or equal to clone(y)" (outliers
+   related to nothing); [wf] is the label-free specification of a forest of non-empty clones, [compat] says every
+   clone's points come after all points of its descendants in the order.  The letters available in a state are
+   exactly [all_places] for its number of top-level clones - the alphabet of the density theorems above. *)
+(* every word of placements builds a forest over exactly the placed points, compatible with the order *)
+Theorem C08_reached_trees_are_compatible_forests : forall (on : bool) (sig : list nat) (w : list place),
+  NoDup sig -> gvalid on g0 sig w ->
+  wf sig (gle (grun g0 sig w)) /\ compat (rev sig) (gle (grun g0 sig w)).
+Proof. exact grammar_sound. Qed.
+Print Assumptions C08_reached_trees_are_compatible_forests.
+
+(* every forest compatible with the order is built by some word (without outliers when outlier modelling is off) *)
+Theorem C08_every_compatible_tree_reachable : forall (on : bool) (sig : list nat) (r : rel),
+  NoDup sig -> wf sig r -> (on = false -> no_outliers sig r) -> compat (rev sig) r ->
+  exists w, gvalid on g0 sig w /\ forall a b, gle (grun g0 sig w) a b = r a b.
+Proof. exact grammar_complete. Qed.
+Print Assumptions C08_every_compatible_tree_reachable.
+
+(* ... and by only one: the path weights of a tree are therefore counted exactly once *)
+Theorem C08_reaching_word_unique : forall (on : bool) (sig : list nat) (w1 w2 : list place),
+  NoDup sig -> gvalid on g0 sig w1 -> gvalid on g0 sig w2 ->
+  (forall p q, gle (grun g0 sig w1) p q = gle (grun g0 sig w2) p q) -> w1 = w2.
+Proof. exact grammar_unique. Qed.
+Print Assumptions C08_reaching_word_unique.
+
+(* one placement preserves: forest, compatibility, and "the top-level list holds one representative per top-level clone" *)
+Theorem C08_placement_preserves_invariant : forall on s x a,
+  ginv s -> ~ In x (gpl s) -> In a (gsupp on s) -> ginv (gstep s x a).
+Proof. exact gstep_inv. Qed.
+Print Assumptions C08_placement_preserves_invariant.
+
+(* non-vacuity: the chain 2 <- 1 <- 0 with outlier 3 is built along 0,1,2,3 and the executable comparison used by the
+   correspondence accepts the model's own placements and rejects a list with one of them missing *)
+Example C08_grammar_example :
+  let w := [NewOver []; NewOver [0]; NewOver [0]; Outlier]%nat in
+  let s := grun g0 [0; 1; 2; 3]%nat w in
+  (gle s 2%nat 0%nat = true /\ gle s 0%nat 2%nat = false /\ gle s 3%nat 3%nat = false /\ groots s = [2]%nat)
+  /\ chk_grammar 2%nat true [0]%nat [0]%nat [[true; false]; [false; false]] 1%nat
+       [([[true; true]; [true; true]], [0]%nat); ([[true; false]; [false; true]], [1; 0]%nat);
+        ([[true; false]; [true; true]], [1]%nat); ([[true; false]; [false; false]], [0]%nat)] = true
+  /\ chk_grammar 2%nat true [0]%nat [0]%nat [[true; false]; [false; false]] 1%nat
+       [([[true; true]; [true; true]], [0]%nat); ([[true; false]; [false; true]], [1; 0]%nat);
+        ([[true; false]; [false; false]], [0]%nat)] = false.
+Proof. repeat split; vm_compute; reflexivity. Qed.
+Print Assumptions C08_grammar_example.
 
 (* pinned commit: on an outliers-only parent the reported densities sum to (1 + op) / 2, not 1 *)
 Example C08_bootstrap_outliers_only_refuted :
